@@ -496,8 +496,28 @@ for nm in ('mysql', 'mssql', 'postgresql', 'oracle', 'sqlite'):
             form_ops.append({'k': 'render', 'd': 'mindsdb', 'sql': sql_, 'rd': nm, 'fb': fb})
             form_ops.append({'k': 'render', 'd': 'mindsdb', 'sql': sql_, 'rd': 'cls:' + nm, 'fb': fb})
 render_ops.extend(form_ops)
+# a caller-defined dialect class that shares its name with a stock one
+custom_ops = []
+for sql_ in FORMS_SQL + ["select a from t limit 5", "select a from t order by b limit 2 offset 3", "select 1"]:
+    for rd in ('postgresql', 'cls:custom_pg', 'postgres', 'cls:postgresql'):
+        custom_ops.append({'k': 'render', 'd': 'mindsdb', 'sql': sql_, 'rd': rd, 'fb': True})
+render_ops.extend(custom_ops)
+fam('render_custom_dialect', custom_ops)
 for nm in ('mysql', 'mssql', 'postgresql', 'oracle', 'sqlite'):
     fam('render_forms_' + nm, [o for o in form_ops if o['rd'] in (nm, 'cls:' + nm)])
+
+# length boundaries: string literals, identifiers and aliases around the identifier limits of the dialects (63/64, 128/129, 255/256)
+long_ops = []
+for n_ in (63, 64, 65, 128, 129, 130, 255, 256, 300):
+    lit = 'x' * n_
+    for sql_ in ["select '%s' from t" % lit, "select '%s' as a, b from t where c = '%s'" % (lit, lit), "select %s from t" % lit, "select a as %s from t" % lit,
+                 "select a from %s" % lit, "insert into t (a) values ('%s')" % lit]:
+        long_ops.append({'k': 'parse', 'd': 'mindsdb', 'sql': sql_})
+        for rd in ('mysql', 'postgresql', 'sqlite', 'mssql', 'oracle'):
+            long_ops.append({'k': 'render', 'd': 'mindsdb', 'sql': sql_, 'rd': rd, 'fb': bool(n_ % 2)})
+render_ops_long = long_ops
+for rd in ('mysql', 'postgresql', 'sqlite', 'mssql', 'oracle'):
+    fam('long_tokens_' + rd, [o for o in long_ops if o.get('rd', rd) == rd])
 
 # renders that FAIL (and fall back, or raise) at every nesting level, next to statements that are sensitive to renderer state
 FAILS = ["select * from a.b.c.d", "select * from (select * from db1.sch.tbl.x) as s", "with c as (select * from db1.sch.tbl.x) select * from c",
@@ -602,7 +622,9 @@ for sql_ in DEEP:
 fam('deep_inputs', deep_ops)
 
 # DDL on one reused renderer: the same table name with different column lists, created / dropped / created again
-DDL = ["create table files.events (id int, payload text, created_at date)", "drop table files.events", "create table files.events (user_id int, score float)",
+DDL_EXTRA = ["create table t (a int, b text, primary key (a))", "create table t (a int, b text, primary key (x))", "create table t (a int primary key, b int default 1)",
+             "create table t (a int, primary key (a, zz))"]
+DDL = DDL_EXTRA + ["create table files.events (id int, payload text, created_at date)", "drop table files.events", "create table files.events (user_id int, score float)",
        "create table files.events (id int)", "create table events (id int, x text)", "create table events (y float)", "drop table if exists events, files.events",
        "create table files.other (id int, payload text)", "create or replace table files.events (z int)"]
 ddl_ops = [{'k': 'render', 'd': 'mindsdb', 'sql': q_, 'rd': rd, 'fb': fb} for rd in ('mysql', 'postgresql', 'sqlite', 'mssql', 'oracle') for q_ in DDL
@@ -714,7 +736,7 @@ probes = [
     {'k': 'render', 'd': 'mindsdb', 'sql': "select interval '1 day'", 'rd': 'oracle', 'fb': True},
 ]
 
-pool = parse_ops + mut_ops + mal_ops + plan_ops + render_ops + flow_ops + gen_plan + gen_render + gen_parse + leaf_pool + render_ops_late + dialect_diff_ops
+pool = parse_ops + mut_ops + mal_ops + plan_ops + render_ops + flow_ops + gen_plan + gen_render + gen_parse + leaf_pool + render_ops_late + dialect_diff_ops + render_ops_long
 # dedupe
 seen = set()
 pool2 = []
